@@ -136,6 +136,7 @@ struct DfsCtx {
 	std::vector<std::pair<int, int> > demoted;   // links (from,to) served only when nothing else is pending
 	std::pair<int, int> promoted;                // link served first whenever non-empty (-1: none)
 	std::vector<std::pair<size_t, int> > inject; // (step index, script message index): Byzantine messages put on the wire at fixed points
+	int late_party;                              // program steps of this party are taken only when nothing else is enabled (-1: none)
 	std::unordered_set<H128, H128h> seen;        // (canon, remaining budget)
 	bool stop;
 };
@@ -147,6 +148,7 @@ static std::vector<Ev> order_events(const DfsCtx &C, const std::vector<Ev> &en)
 	for (size_t i = 0; i < en.size(); i++)
 	{
 		const Ev &e = en[i];
+		if (e.k == 'G' && e.a == C.late_party) { last.push_back(e); continue; }
 		bool isl = (e.k == 'M' || e.k == 'F');
 		int from = e.k == 'M' ? e.b : e.c, to = e.a;
 		if (isl && C.promoted.first == from && C.promoted.second == to) { first.push_back(e); continue; }
@@ -241,10 +243,11 @@ static void dfs_explore(DfsCtx &C, const std::vector<int> &prefix, int used)
 }
 
 static bool dfs(const Cfg &cfg, const std::string &cell, int bound, const std::vector<std::pair<int, int> > &demoted,
-	std::pair<int, int> promoted, const std::vector<std::pair<size_t, int> > &inject)
+	std::pair<int, int> promoted, const std::vector<std::pair<size_t, int> > &inject, int late_party = -1)
 {
 	DfsCtx C;
 	C.cfg = &cfg, C.cell = cell, C.bound = bound, C.demoted = demoted, C.promoted = promoted, C.inject = inject, C.stop = false;
+	C.late_party = late_party;
 	dfs_explore(C, std::vector<int>(), 0);
 	return !C.stop;
 }
@@ -489,6 +492,33 @@ static void build_cells(bool thorough)
 			}});
 		}
 	}
+	// 4b. late join: the broadcast happens in an inner channel (FIFO on/off) while one party is still on the parent channel
+	//     and enters only when nothing else is left to do; every demoted link (so that payloads have to be fetched by
+	//     r-request / r-answer and deliveries are buffered under a foreign channel ID)
+	for (int f = 1; f >= 0; f--)
+		for (int late = 1; late < 4; late++)
+		{
+			int bound = thorough ? 1 : 0;
+			std::string id = "latejoin:n=4,t=1,innerfifo=" + str(f) + ",late=" + str(late) + ",d<=" + str(bound);
+			cells.push_back(Cell{id, [=]() {
+				bool ok = true;
+				for (int d1 = -1; d1 < 16 && ok; d1++)
+					for (int d2 = -1; d2 < (thorough ? 16 : 0) && ok; d2++)
+					{
+						if (d2 >= 0 && (d2 == d1 || d1 < 0)) continue;
+						Cfg c = base_cfg(4, 1, true, -1);
+						for (int p = 0; p < 4; p++) c.prog[p].push_back(Ev{'S', 1, f, 0});
+						c.prog[0].push_back(Ev{'B', (int)val_of(0, 0), 0, 0});
+						c.prog[0].push_back(Ev{'B', (int)val_of(0, 1), 0, 0});
+						std::vector<std::pair<int, int> > dem;
+						if (d1 >= 0) dem.push_back(std::make_pair(d1 / 4, d1 % 4));
+						if (d2 >= 0) dem.push_back(std::make_pair(d2 / 4, d2 % 4));
+						std::string sub = id + ",demote1=" + str(d1) + ",demote2=" + str(d2);
+						ok = dfs(c, sub, bound, dem, std::make_pair(-1, -1), {}, late);
+					}
+				return ok;
+			}});
+		}
 	// 5. Byzantine sender (equivocation), all scripts, injected at start or after the echo phase
 	for (int f = 1; f >= 0; f--)
 		for (int b = 0; b < 4; b += 3)
